@@ -793,6 +793,11 @@ class Engine:
                     return s.H(v)["cid"]
                 return None
             ia, ib = ident(a), ident(b)
+            if isinstance(a, Rec) and isinstance(b, Rec) and a.name == b.name and a is not b and ("oid" in a.f or "oid" in b.f):
+                # records that stand for objects carry their identity in `oid` (their value is a function of it)
+                if not ("oid" in a.f and "oid" in b.f):
+                    raise Unsupported(f"identity of {a.name} objects")
+                ia, ib = a.f["oid"], b.f["oid"]
             if ia is not None and ib is not None:
                 r = Eq(ia, ib)
                 return Not(r) if isinstance(op, ast.IsNot) else r
